@@ -178,7 +178,7 @@ package evaluator
 
 //@ func (m *mapVal) SetKey(key string, val value)
 //@   props C12 C09
-//@   requires wfMap(m)
+//@   requires[assumed-wf] wfMap(m)
 //@   let o = *m.Order
 //@   let n0 = old(len(*m.Order))
 //@   ensures[C12 same-objects] m.Order == old(m.Order) && m.Pairs == old(m.Pairs)
@@ -194,7 +194,7 @@ package evaluator
 
 //@ func (m *mapVal) Delete(key string)
 //@   props C12
-//@   requires wfMap(m)
+//@   requires[assumed-wf] wfMap(m)
 //@   let n0 = old(len(*m.Order))
 //@   let p = old(idxof(*m.Order, key))
 //@   ensures[C12 same-objects] m.Order == old(m.Order) && m.Pairs == old(m.Pairs)
